@@ -264,6 +264,16 @@ class Sym:
                     if switch_filter is not None:
                         edges = switch_filter(b, d, edges)
                     vals = [v for v, _ in t["targets"]]
+                    # a discriminant already decided on this path (identical term: same value, same call instance) keeps its value:
+                    # contradictory combinations are infeasible and not enumerated
+                    for pk, pd, pv, pb in path.conds:
+                        if pk == ("switch",) and pd == d and not (isinstance(d, tuple) and d and d[0] == "const"):
+                            if isinstance(pv, tuple) and pv and pv[0] == "else":
+                                edges = [(v, tb) for v, tb in edges if v == "else" or v not in pv[1]]
+                            else:
+                                keep = [(v, tb) for v, tb in edges if v == pv]
+                                edges = keep if keep else [(v, tb) for v, tb in edges if v == "else"]
+                            break
                     first = True
                     for v, tb in edges:
                         p2 = Path()
